@@ -242,7 +242,8 @@ theorem translateLoop_spec (trunc strict : Bool) (t : Nat) (starts : List (List 
       subst hi
       simp only [hmem, and_self, decide_true, if_true, atg_translates, pure, Except.pure]
       have hhead : okAA starts 0 ch 'M' = true := by unfold okAA; simp [hmem]
-      have hnr : (!(decide (0 = 0 ∧ ch ∈ starts)) && (standardCode ch).isNone) = false := by simp [hmem]
+      have hsr : ∀ tl, strictRefuses starts 0 (ch :: tl) = strictRefuses starts (0 + 1) tl := by
+        intro tl; simp [strictRefuses, hmem]
       by_cases hT : trunc = true ∧ isStop ch = true
       · simp only [hT, and_self, if_true]
         by_cases hre : rest.isEmpty = true
@@ -262,7 +263,7 @@ theorem translateLoop_spec (trunc strict : Bool) (t : Nat) (starts : List (List 
         constructor
         · intro h
           have h2 : strictRefuses starts (0 + 1) (usedOf trunc rest) = true := by
-            have := h.2; simp only [strictRefuses, hnr, Bool.false_or] at this; exact this
+            have := h.2; rw [hsr] at this; exact this
           have := ih.1 ⟨h.1, h2⟩
           cases hr : translateLoop trunc (t : Int) strict (0 + 1) rest with
           | error e => simp
@@ -270,7 +271,7 @@ theorem translateLoop_spec (trunc strict : Bool) (t : Nat) (starts : List (List 
         · intro h
           have h2 : ¬ (strict = true ∧ strictRefuses starts (0 + 1) (usedOf trunc rest) = true) := by
             intro hh; apply h; refine ⟨hh.1, ?_⟩
-            simp only [strictRefuses, hnr, Bool.false_or]; exact hh.2
+            rw [hsr]; exact hh.2
           obtain ⟨prot, hp, hq⟩ := ih.2 h2
           exact ⟨'M' :: prot, by simp [hp], by simp [okProteinFrom, hhead, hq]⟩
     · -- ordinary codon
@@ -285,8 +286,10 @@ theorem translateLoop_spec (trunc strict : Bool) (t : Nat) (starts : List (List 
           intro tl; simp [strictRefuses, hS, hnone]
         constructor
         · intro _; rfl
-        · intro h; exfalso; apply h; refine ⟨hbad.1, ?_⟩
-          split <;> exact href _
+        · intro h; exfalso; apply h
+          constructor
+          · first | exact hbad.1 | trivial
+          · split <;> exact href _
       · simp only [hbad, if_false, pure, Except.pure]
         have hsome : strict = true → (standardCode ch).isSome = true := by
           intro hs
@@ -354,7 +357,7 @@ theorem translateLoop_okTranslateCodons (trunc strict : Bool) (t : Nat) (ht : t 
     by_cases hr : strict = true ∧ strictRefuses starts 0 (usedOf trunc cods) = true
     · have h1 := this.1 hr
       have hr' : strict = true ∧ strictRefuses starts 0 (if trunc = true then uptoFirstStop cods else cods) = true := hr
-      simp [hr', h1]
+      rw [if_pos hr', h1]; rfl
     · obtain ⟨prot, hp, hq⟩ := this.2 hr
       have hr' : ¬ (strict = true ∧ strictRefuses starts 0 (if trunc = true then uptoFirstStop cods else cods) = true) := hr
       simp only [hr', if_false, hp, ans_ok]
